@@ -5,6 +5,7 @@
 mod composer_script;
 mod dispatch;
 mod util;
+mod widgets;
 
 fn main() {
     let args: Vec<String> = std::env::args().collect();
@@ -17,6 +18,7 @@ fn main() {
     let text = std::fs::read_to_string(&args[2]).expect("read script");
     match args[1].as_str() {
         "composer" => composer_script::run(&text),
+        "widgets" => widgets::run(&text),
         m => {
             eprintln!("unknown mode {m}");
             std::process::exit(2);
